@@ -185,6 +185,7 @@ type ObResult struct {
 	Agree    []string // back ends that answered the same (thorough)
 	Model    string
 	SMTFile  string
+	SatFiles []string // every refuted path's query (replay tries them in turn)
 	SMTBytes int
 	Outputs  map[string]string
 }
@@ -795,8 +796,24 @@ func (d *Discharger) discharge(ob *Obligation) {
 			}
 		}
 	}
+	for _, cr := range crs {
+		if cr.answer == "sat" && !ob.Cover {
+			res.SatFiles = append(res.SatFiles, cr.file)
+		}
+	}
+	// a refuted path (with a model) is reported in preference to one that is merely undecided
+	firstSat := -1
+	for ci, cr := range crs {
+		if cr.answer != want && cr.answer == "sat" && !ob.Cover {
+			firstSat = ci
+			break
+		}
+	}
 	for ci, cr := range crs {
 		res.SMTBytes += len(ob.smts[ci])
+		if firstSat >= 0 && ci != firstSat && cr.answer != want {
+			continue
+		}
 		if res.Backend == "" {
 			res.Backend = cr.backend
 			res.Agree = cr.agree
